@@ -418,11 +418,26 @@ struct Table {
     tuple: bool,
     /// a table whose entries are not Codepoints expressions (not one this monitor knows): skipped, never judged
     opaque: bool,
+    /// rows are plain `(first, last, value)` triples, no Codepoints expression
+    plain: bool,
     entries: Vec<(u32, u32, bool, String)>, // start, end, is_range, value text
 }
 
-fn hexval(s: &str) -> Option<u32> {
-    u32::from_str_radix(s.trim().trim_start_matches("0x"), 16).ok()
+/// an integer literal as rustc reads it: 0x.. / decimal, `_` separators, optional u32 suffix
+fn intval(s: &str) -> Option<u32> {
+    let t = s.trim().trim_end_matches("u32").trim_end_matches('_').replace('_', "");
+    match t.strip_prefix("0x").or_else(|| t.strip_prefix("0X")) {
+        Some(h) => u32::from_str_radix(h, 16).ok(),
+        None => t.parse().ok(),
+    }
+}
+
+/// a value as the monitor compares it: integer literals in one spelling, anything else verbatim
+fn norm_val(v: &str) -> String {
+    match intval(v) {
+        Some(n) => format!("{:#06x}", n),
+        None => v.trim().to_string(),
+    }
 }
 
 fn parse_emitted(text: &str) -> Result<Vec<Table>, String> {
@@ -434,7 +449,9 @@ fn parse_emitted(text: &str) -> Result<Vec<Table>, String> {
             let name = rest.split(':').next().unwrap_or("").to_string();
             let ty = rest.split('[').nth(1).unwrap_or("");
             let declared = rest.rsplit(';').next().and_then(|x| x.split(']').next()).and_then(|x| x.trim().parse().ok()).ok_or(format!("bad header {}", l))?;
-            cur = Some(Table { name, declared, tuple: ty.starts_with('('), opaque: false, entries: Vec::new() });
+            // `[(u32, u32, V); N]`: plain triples (decided by the element type, so that an empty table is read right too)
+            let plain = ty.replace(' ', "").starts_with("(u32,u32,");
+            cur = Some(Table { name, declared, tuple: ty.starts_with('('), opaque: false, plain, entries: Vec::new() });
             continue;
         }
         if l == "];" {
@@ -448,6 +465,25 @@ fn parse_emitted(text: &str) -> Result<Vec<Table>, String> {
                 continue;
             }
             if !l.contains("Codepoints::") {
+                // another representation of the same thing: rows `(first, last, value)` of plain integers
+                let inner = l.trim_end_matches(',').trim();
+                let triple = inner.strip_prefix('(').and_then(|x| x.strip_suffix(')')).and_then(|x| {
+                    let mut it = x.splitn(3, ',');
+                    let (a, b, v) = (it.next()?, it.next()?, it.next()?);
+                    Some((intval(a)?, intval(b)?, norm_val(v)))
+                });
+                match triple {
+                    Some((a, b, v)) if t.plain => {
+                        t.entries.push((a, b, true, v));
+                    }
+                    _ => {
+                        t.opaque = true;
+                        t.entries.clear();
+                    }
+                }
+                continue;
+            }
+            if t.plain {
                 t.opaque = true;
                 t.entries.clear();
                 continue;
@@ -455,18 +491,21 @@ fn parse_emitted(text: &str) -> Result<Vec<Table>, String> {
             let (cps, val) = if t.tuple {
                 let inner = l.trim_start_matches('(').trim_end_matches(',').trim_end_matches(')');
                 // value is after the last ", " that follows the Codepoints expression
-                let close = if inner.starts_with("Codepoints::Range") { inner.find("))").map(|i| i + 2) } else { inner.find(')').map(|i| i + 1) }.ok_or(format!("bad entry {}", l))?;
-                (inner[..close].to_string(), inner[close..].trim_start_matches(',').trim().to_string())
+                let close = if inner.starts_with("Codepoints::Range(std::ops::RangeInclusive::new(") { inner.find("))").map(|i| i + 2) } else { inner.find(')').map(|i| i + 1) }.ok_or(format!("bad entry {}", l))?;
+                (inner[..close].to_string(), norm_val(inner[close..].trim_start_matches(',')))
             } else {
                 (l.trim_end_matches(',').to_string(), String::new())
             };
             if let Some(x) = cps.strip_prefix("Codepoints::Single(") {
-                let v = hexval(x.trim_end_matches(')')).ok_or(format!("bad single {}", l))?;
+                let v = intval(x.trim_end_matches(')')).ok_or(format!("bad single {}", l))?;
                 t.entries.push((v, v, false, val));
             } else if let Some(x) = cps.strip_prefix("Codepoints::Range(std::ops::RangeInclusive::new(") {
                 let x = x.trim_end_matches(')');
                 let (a, b) = x.split_once(',').ok_or(format!("bad range {}", l))?;
-                t.entries.push((hexval(a).ok_or("hex")?, hexval(b).ok_or("hex")?, true, val));
+                t.entries.push((intval(a).ok_or("hex")?, intval(b).ok_or("hex")?, true, val));
+            } else if let Some((a, b)) = cps.strip_prefix("Codepoints::Range(").and_then(|x| x.trim_end_matches(')').split_once("..=")) {
+                // the same range written as a range expression
+                t.entries.push((intval(a).ok_or(format!("bad range {}", l))?, intval(b).ok_or(format!("bad range {}", l))?, true, val));
             } else {
                 return Err(format!("unrecognised entry line: {}", l));
             }
@@ -673,7 +712,10 @@ fn check_core_output(out: &Path, g: &Ground, case: &str, rec: &mut Rec) -> Optio
             check_table(t, &tr, &format!("{};table={}", case, t.name), rec);
         }
     }
-    if seen < 40 {
+    let unread = all.iter().filter(|t| t.opaque).count();
+    if seen < 40 && seen + unread >= 40 {
+        rec.note(format!("HARNESS-ERROR: {} emitted core table(s) are in a form this monitor cannot read: nothing decided about them", unread));
+    } else if seen < 40 {
         rec.violation(
             "generated-files-miss-tables",
             Witness { op: "core build script".into(), case: case.to_string(), expected: ">= 40 UCD-derived tables".into(), observed: format!("{}", seen) },
@@ -717,7 +759,10 @@ fn check_profiles_output(out: &Path, ud: &UnicodeData, case: &str, rec: &mut Rec
         seen += 1;
         check_table(t, &truth, &format!("{};table={}", case, t.name), rec);
     }
-    if seen != 3 {
+    let unread = all.iter().filter(|t| t.opaque && ["BIDI_CLASS_TABLE", "SPACE_SEPARATOR", "WIDE_NARROW_MAPPING"].contains(&t.name.as_str())).count();
+    if unread > 0 {
+        rec.note(format!("HARNESS-ERROR: {} emitted profile table(s) are in a form this monitor cannot read: nothing decided about them", unread));
+    } else if seen != 3 {
         rec.violation(
             "generated-files-miss-tables",
             Witness { op: "profiles build script".into(), case: case.to_string(), expected: "3 tables".into(), observed: format!("{}", seen) },
@@ -744,34 +789,59 @@ fn run_build(root: &Path, core: bool) -> Result<(), String> {
 /// compile the emitted files with rustc and let the compiled program report each
 /// table's length and a checksum: confirms the text parser reads what the compiler reads
 fn compile_crosscheck(root: &Path, core_out: &Path, tables: &[Table], files: &[&str], rec: &mut Rec, case: &str) {
-    let mut src = String::from("#![allow(warnings)]\n");
-    src.push_str(&format!("include!({:?});\n", core_out.join("public.rs")));
+    let mut includes = String::from("#![allow(warnings)]\n");
+    includes.push_str(&format!("include!({:?});\n", core_out.join("public.rs")));
     for f in files {
-        src.push_str(&format!("include!({:?});\n", root.join("out").join(f)));
+        includes.push_str(&format!("include!({:?});\n", root.join("out").join(f)));
     }
-    src.push_str("fn ck(e: &Codepoints) -> u64 { match e { Codepoints::Single(c) => (*c as u64) * 31 + 7, Codepoints::Range(r) => (*r.start() as u64) * 131 + (*r.end() as u64) * 17 + 3 } }\nfn main() {\n");
-    for t in tables {
-        if t.tuple {
-            src.push_str(&format!("  println!(\"{} {{}} {{}}\", {}.len(), {}.iter().map(|e| ck(&e.0)).fold(0u64, |a, b| a.wrapping_mul(1000003).wrapping_add(b)));\n", t.name, t.name, t.name));
-        } else {
-            src.push_str(&format!("  println!(\"{} {{}} {{}}\", {}.len(), {}.iter().map(|e| ck(e)).fold(0u64, |a, b| a.wrapping_mul(1000003).wrapping_add(b)));\n", t.name, t.name, t.name));
-        }
-    }
-    src.push_str("}\n");
     let main = root.join("crosscheck.rs");
     let bin = root.join("crosscheck.bin");
-    if std::fs::write(&main, src).is_err() {
-        rec.note("HARNESS-ERROR: cannot write crosscheck source");
-        return;
+    let rustc = |src: &str| -> Result<Result<(), String>, String> {
+        std::fs::write(&main, src).map_err(|e| e.to_string())?;
+        let o = std::process::Command::new("rustc").args(["--edition", "2018", "-o"]).arg(&bin).arg(&main).output().map_err(|e| e.to_string())?;
+        Ok(if o.status.success() { Ok(()) } else { Err(String::from_utf8_lossy(&o.stderr).to_string()) })
+    };
+    // stage 1: the emitted files alone (with the emitted Codepoints type). An error here is the emitted code's
+    // own, unless it is only about names the files expect from their crate (then the monitor lacks the context)
+    match rustc(&format!("{}fn main() {{}}\n", includes)) {
+        Err(e) => {
+            rec.note(format!("rustc not runnable for the cross-check: {}", e));
+            return;
+        }
+        Ok(Err(stderr)) => {
+            let codes: Vec<&str> = stderr.lines().filter_map(|l| l.strip_prefix("error[")).filter_map(|l| l.split(']').next()).collect();
+            let unresolved_only = !codes.is_empty() && codes.iter().all(|c| ["E0412", "E0425", "E0432", "E0433", "E0405", "E0531", "E0574"].contains(c));
+            if unresolved_only {
+                rec.note("emitted files refer to names from their crate: not compiled stand-alone (observed only, not judged)");
+            } else {
+                rec.violation(
+                    "generated-code-does-not-compile",
+                    Witness { op: "rustc on the emitted files".into(), case: case.to_string(), expected: "compiles".into(), observed: stderr.chars().take(600).collect() },
+                );
+            }
+            return;
+        }
+        Ok(Ok(())) => {}
     }
-    let out = std::process::Command::new("rustc").args(["--edition", "2018", "-o"]).arg(&bin).arg(&main).output();
-    match out {
-        Ok(o) if o.status.success() => {}
-        Ok(o) => {
-            rec.violation(
-                "generated-code-does-not-compile",
-                Witness { op: "rustc on the emitted files".into(), case: case.to_string(), expected: "compiles".into(), observed: String::from_utf8_lossy(&o.stderr).chars().take(600).collect() },
-            );
+    // stage 2: a driver that prints each table's length and a checksum, to confirm that the text parser reads
+    // what the compiler reads. A failure here is the driver's (it assumes an element type), never the library's
+    let mut src = includes.clone();
+    src.push_str("fn ck(e: &Codepoints) -> u64 { match e { Codepoints::Single(c) => (*c as u64) * 31 + 7, Codepoints::Range(r) => (*r.start() as u64) * 131 + (*r.end() as u64) * 17 + 3 } }\nfn main() {\n");
+    for t in tables.iter().filter(|t| !t.opaque) {
+        let elem = if t.plain {
+            "(e.0 as u64) * 131 + (e.1 as u64) * 17 + 3"
+        } else if t.tuple {
+            "ck(&e.0)"
+        } else {
+            "ck(e)"
+        };
+        src.push_str(&format!("  println!(\"{} {{}} {{}}\", {}.len(), {}.iter().map(|e| {}).fold(0u64, |a, b| a.wrapping_mul(1000003).wrapping_add(b)));\n", t.name, t.name, t.name, elem));
+    }
+    src.push_str("}\n");
+    match rustc(&src) {
+        Ok(Ok(())) => {}
+        Ok(Err(stderr)) => {
+            rec.note(format!("HARNESS-ERROR: the cross-check driver does not compile against the emitted tables: {}", stderr.chars().take(300).collect::<String>()));
             return;
         }
         Err(e) => {
@@ -782,7 +852,7 @@ fn compile_crosscheck(root: &Path, core_out: &Path, tables: &[Table], files: &[&
     let out = std::process::Command::new(&bin).output();
     let text = out.map(|o| String::from_utf8_lossy(&o.stdout).to_string()).unwrap_or_default();
     let mut ok = 0;
-    for t in tables {
+    for t in tables.iter().filter(|t| !t.opaque) {
         let ck = t.entries.iter().map(|e| if e.2 { (e.0 as u64) * 131 + (e.1 as u64) * 17 + 3 } else { (e.0 as u64) * 31 + 7 }).fold(0u64, |a, b| a.wrapping_mul(1000003).wrapping_add(b));
         let want = format!("{} {} {}", t.name, t.entries.len(), ck);
         if text.lines().any(|l| l == want) {
